@@ -36,7 +36,7 @@ const (
 )
 
 func TestMain(m *testing.M) {
-	rec.Rule("cases = generated compound files (sector size 512/4096, mini stream present/absent, streams around the 4096 cutoff, nested storages, free-sector patterns, fragmented chains, directory padding, DIFAT) x histories of AddFile (sizes around 0/64/4095/4096/4097/multi-sector, signature names and other names incl. case variants) / replace / DeleteFile / Close+reopen; oracle = harness CFB validator (header counts, FAT/DIFAT/miniFAT chains in bounds, acyclic, disjoint, directory red-black tree ordered per MS-CFB) + model of every stream's name, metadata and bytes + reference MSI digest; non-trivial = history with >= 2 mutations or a size on the other side of the cutoff than any existing stream, on a file with >= 2 layout classes; distinct = (file sha256, history)")
+	rec.Rule("cases = generated compound files (sector size 512/4096, mini stream present/absent, streams around the 4096 cutoff, nested storages, free-sector patterns, fragmented chains, directory padding, DIFAT) x histories of AddFile (sizes around 0/64/4095/4096/4097/multi-sector, signature names and other names incl. case variants) / replace / DeleteFile / Close+reopen; oracle = harness CFB validator (header counts, FAT/DIFAT/miniFAT chains in bounds, acyclic, disjoint, directory red-black tree ordered per MS-CFB) + model of every stream's name, metadata and bytes + reference MSI digest; files with a full FAT at 109 (thorough also 236) FAT sectors so that additions need a new DIFAT sector; non-trivial = history with >= 2 mutations or a size on the other side of the cutoff than any existing stream, on a file with >= 2 layout classes; distinct = (file sha256, history)")
 	var err error
 	workDir, err = os.MkdirTemp("", "c18-")
 	if err != nil {
